@@ -56,7 +56,8 @@ func w7SameCompact(a, b tlmetadata.Event) bool {
 		return false
 	}
 	if a.EventType != format.MetricEvent {
-		return equalWithoutVersionJournalEvent(a, b)
+		a.Version, b.Version = 0, 0 // own comparison: every other field counts, UpdateTime too
+		return a == b
 	}
 	va, err1 := MetricMetaFromEvent(a)
 	vb, err2 := MetricMetaFromEvent(b)
